@@ -1,2 +1,105 @@
-(* placeholder until the statements are pinned *)
-From WV Require Import Model.Dwarf.
+(* C10 - DWARF addresses follow their instructions and functions.  Statements only; proofs in Proofs/Dwarf.v.
+   Model/Dwarf.v models the address classifier (CodeAddressGenerator::find_address), the converter
+   (CodeAddressConverter::find_address) and the rebase to the start of the code section contents.
+   [tables_wf t] is what parsing guarantees about the two tables (instruction addresses strictly increasing, function
+   entries disjoint and of the shape size-LEB ++ body, every instruction strictly after the body start of its function);
+   c10_premises_satisfiable exhibits such tables.
+   - a row whose address was the start of an instruction is classified as THAT instruction (either search preference) and
+     is converted to the output offset the instruction map gives for it - by C11 the first byte of the same instruction -,
+     relative to the code section contents; if the instruction is not in the map (removed code) the result is None: the
+     row is dropped, never redirected;
+   - low_pc (start of the function body) and high_pc (end of the function) of a subprogram are classified as body start
+     and function end of THAT function and converted to the body start and end of its emitted entry: the converted range
+     has exactly the size of the emitted body, whatever happened to the size, the size field or the first instruction;
+     for a removed function both are None (the emitter tombstones them);
+   - addresses outside every function are Unknown / None.
+   The DIE and line-program plumbing around these functions (gimli reader/writer, sequence handling) is covered
+   end-to-end by the correspondence run, not modelled. *)
+From Coq Require Import List NArith Bool Sorted. Import ListNotations.
+From WV Require Import Model.Common Model.Dwarf Model.CodeMap Proofs.Dwarf.
+Open Scope N_scope.
+
+Theorem c10_row_address_is_its_instruction :
+  forall t : dtables,
+         tables_wf t ->
+         forall a loc : N, In (a, loc) (dt_instrs t) -> forall incl : bool, find_address t a incl = CInstr loc.
+Proof. exact find_instr. Qed.
+
+Theorem c10_row_follows_instruction :
+  forall t : dtables,
+         tables_wf t ->
+         forall (c : ctrans) (a loc x : N) (incl : bool),
+         In (a, loc) (dt_instrs t) ->
+         lookup loc (ct_imap c) = Some x -> convert_address t c a incl = Some (x - ct_start c).
+Proof. exact convert_instr_kept. Qed.
+
+Theorem c10_removed_code_dropped :
+  forall t : dtables,
+         tables_wf t ->
+         forall (c : ctrans) (a loc : N) (incl : bool),
+         In (a, loc) (dt_instrs t) -> lookup loc (ct_imap c) = None -> convert_address t c a incl = None.
+Proof. exact convert_instr_removed. Qed.
+
+Theorem c10_body_start_recovered :
+  forall s sz : N, body_start (s, s + leb5 sz + sz) = s + leb5 sz.
+Proof. exact body_start_spec_gen. Qed.
+
+Theorem c10_low_pc_is_body_start :
+  forall t : dtables,
+         tables_wf t ->
+         forall r : N * N * N,
+         In r (dt_ranges t) ->
+         forall incl : bool, find_address t (body_start (fst r)) incl = CBodyStart (snd r).
+Proof. exact find_body_start. Qed.
+
+Theorem c10_high_pc_is_function_end :
+  forall t : dtables,
+         tables_wf t ->
+         forall r : N * N * N, In r (dt_ranges t) -> find_address t (rng_end r) true = CFnEdge (snd r).
+Proof. exact find_fn_end. Qed.
+
+Theorem c10_subprogram_covers_same_function :
+  forall t : dtables,
+         tables_wf t ->
+         forall (c : ctrans) (r : N * N * N) (s' e' sz' : N) (incl : bool),
+         In r (dt_ranges t) ->
+         lookup (snd r) (ct_franges c) = Some (s', e') ->
+         2 <= sz' ->
+         e' = s' + leb5 sz' + sz' ->
+         ct_start c <= s' ->
+         convert_address t c (body_start (fst r)) incl = Some (s' + leb5 sz' - ct_start c) /\
+         convert_address t c (rng_end r) true = Some (e' - ct_start c) /\
+         e' - ct_start c - (s' + leb5 sz' - ct_start c) = sz'.
+Proof. exact subprogram_range. Qed.
+
+Theorem c10_subprogram_of_removed_function :
+  forall t : dtables,
+         tables_wf t ->
+         forall (c : ctrans) (r : N * N * N) (incl : bool),
+         In r (dt_ranges t) ->
+         lookup (snd r) (ct_franges c) = None ->
+         convert_address t c (body_start (fst r)) incl = None /\ convert_address t c (rng_end r) true = None.
+Proof. exact subprogram_removed. Qed.
+
+Theorem c10_unknown_address :
+  forall t : dtables,
+         tables_wf t ->
+         forall (a : N) (incl : bool),
+         (forall r : N * N * N, In r (dt_ranges t) -> a < rng_start r \/ rng_end r < a) ->
+         find_address t a incl = CUnknown /\ (forall c : ctrans, convert_address t c a incl = None).
+Proof. exact find_unknown. Qed.
+
+Theorem c10_premises_satisfiable :
+  tables_wf ex_tables.
+Proof. exact ex_tables_wf. Qed.
+
+Print Assumptions c10_row_address_is_its_instruction.
+Print Assumptions c10_row_follows_instruction.
+Print Assumptions c10_removed_code_dropped.
+Print Assumptions c10_body_start_recovered.
+Print Assumptions c10_low_pc_is_body_start.
+Print Assumptions c10_high_pc_is_function_end.
+Print Assumptions c10_subprogram_covers_same_function.
+Print Assumptions c10_subprogram_of_removed_function.
+Print Assumptions c10_unknown_address.
+Print Assumptions c10_premises_satisfiable.
